@@ -14,7 +14,8 @@
 (*           k-th model call answers script[min(k, Len)], so a script      *)
 (*           whose last message has tool calls never stops by itself),     *)
 (*           tools <<name>>, rd <<name>> (return-directly), maxstep        *)
-(*           (0 = default), modifier BOOLEAN (a message modifier that      *)
+(*           (0 = default), inplace BOOLEAN (a modifier that edits the     *)
+(*           slice it is given in place), modifier BOOLEAN (a modifier that *)
 (*           prepends the system message "sys")                            *)
 (*   run     mode "generate" | "stream", msgs: the input messages of THIS  *)
 (*           run (the two runs of a case use one agent, possibly at the    *)
@@ -51,7 +52,7 @@ Range(s) == {s[i] : i \in 1..Len(s)}
 Max2(a, b) == IF a > b THEN a ELSE b
 Min2(a, b) == IF a < b THEN a ELSE b
 
-NoCase == [id |-> "", msgs |-> <<>>, script |-> <<>>, tools |-> <<>>, rd |-> <<>>, maxstep |-> 0, modifier |-> FALSE]
+NoCase == [id |-> "", msgs |-> <<>>, script |-> <<>>, tools |-> <<>>, rd |-> <<>>, maxstep |-> 0, modifier |-> FALSE, inplace |-> FALSE]
 NoMsg == [role |-> "", content |-> "", calls |-> <<>>, tcid |-> ""]
 Idle == [id |-> "", open |-> FALSE, bad |-> "", c |-> NoCase, inrun |-> FALSE, phase |-> "closed", k |-> 0, steps |-> 0, hist |-> <<>>,
          cur |-> <<>>, pending |-> {}, outs |-> <<>>, started |-> FALSE, expect |-> NoMsg, viard |-> FALSE,
@@ -73,7 +74,11 @@ RunRule(S, e) ==
   ELSE [S EXCEPT !.inrun = TRUE, !.phase = "model", !.k = 0, !.steps = 0, !.hist = RenderAll(e.msgs), !.cur = <<>>, !.pending = {},
                  !.outs = <<>>, !.started = FALSE, !.expect = NoMsg, !.viard = FALSE, !.nruns = @ + 1, !.mode = e.mode]
 
-ModelInput(S) == IF S.c.modifier THEN <<SysMsg>> \o S.hist ELSE S.hist
+\* modifier: NewPersonaModifier("sys") (builds a new list); inplace: a modifier that replaces the first element of the slice it is
+\* given by a copy of that message with "M:" in front of its content, and returns that slice.  Either way the modifier is applied
+\* once per call to the agent's own history, which it must not change.
+Marked(h) == IF Len(h) = 0 THEN h ELSE [h EXCEPT ![1].content = "M:" \o @]
+ModelInput(S) == IF S.c.modifier THEN <<SysMsg>> \o S.hist ELSE IF S.c.inplace THEN Marked(S.hist) ELSE S.hist
 
 McallRule(S, e) ==
   LET inp == RenderAll(e.input) IN
